@@ -186,6 +186,7 @@ func (m *zzBusMonitor) DeletedMetadata(ctx context.Context, targetType string, t
 
 // zzWorld is one running commander over a store.
 type zzWorld struct {
+	restarts    int         // how many times the commander was restarted on this store
 	stamp       ledger.Time // explicit timestamp of created transactions (zero: now)
 	metaVariant int
 	store       *zzStore
